@@ -12,6 +12,12 @@ HANDOVER = V.universe(
     ready=[(4, (3, "A")), (4, (2, "A"))],
     certs=[("notar", 4, "A"), ("ff", 4, "A"), ("final", 5, "-"), ("notar", 5, "A")],
     s2n=[(4, "B")], evslots=[3, 4, 5])
+# the node has notarized slots 1..3 (window 0) before anything of window 1 happens: the first block of the next
+# window may arrive before / without its ParentReady, next to the certificate of the block it builds on
+BOUNDARY = V.universe(
+    blocks=[(1, "A", G), (2, "A", (1, "A")), (3, "A", (2, "A")), (4, "A", (3, "A")), (4, "B", (2, "A")), (5, "A", (4, "A"))],
+    ready=[(4, (3, "A"))], certs=[("notar", 3, "A"), ("notar", 4, "A")], s2n=[(4, "B")], evslots=[4],
+    prefix=[(1, "A", G), (2, "A", (1, "A")), (3, "A", (2, "A"))])
 
 
 def run(ctx):
@@ -23,10 +29,12 @@ def run(ctx):
                     witnesses=["W_Final", "W_Nf", "W_Sf"])
         V.run_model(ctx, "handover", HANDOVER, 7, 7, sample=80000,
                     witnesses=["W_Pruned", "W_NotarSecondWindow"])
+        V.run_model(ctx, "boundary", BOUNDARY, 7, 6, sample=80000, witnesses=["W_NotarSecondWindow"])
     else:
         V.run_model(ctx, "w0", W0, 7, 10, sample=2500000, witnesses=["W_Final", "W_Nf", "W_Sf"])
         V.run_model(ctx, "handover", HANDOVER, 7, 10, sample=2500000,
                     witnesses=["W_Pruned", "W_NotarSecondWindow"])
+        V.run_model(ctx, "boundary", BOUNDARY, 7, 9, sample=1500000, witnesses=["W_NotarSecondWindow"])
     # the composition Pool + Votor (consensus.rs wiring): the rules hold without assumptions about the pool,
     # and the real pair takes exactly the spec's transitions
     ND.run_model(ctx, "node_w0", ND.W0["stakes"], ND.W0["own"], ND.W0["max_slot"],
